@@ -116,6 +116,8 @@ def c01(pid, tier, seed):
             TextShapes=("T", "TW", "TW1", "T2W1", "TnlT", "TnnT", "e", "nl", "nlT", "Tnl", "TWnnT", "T2WnnT", "TWnT", "TWnTW"), Tpls=("M", "PnM", "MnC"), Base=0),
         # a log line that is taller than the whole terminal (its top scrolls away, nothing may be lost)
         fam("single_tall_log", conf="single", W=3, H=4, D=4 if q else 5, BarOps=("tick", "set_message", "println", "finish"), MsgShapes=("a", "W1"), TextShapes=("T", "T5W"), Fins=("AndLeave",)),
+        # the same log text printed twice in a row with an unchanged frame in between
+        fam("single_repeats", conf="single", W=4, H=8, D=4 if q else 5, BarOps=("println", "tick", "set_message", "finish_and_clear"), TextShapes=("same", "T"), MsgShapes=("a",), Fins=("AndLeave",)),
         fam("single_limited", conf="single", W=3, H=4, D=4 if q else 5, BarOps=("burst", "tick", "set_message", "println", "finish", "finish_and_clear", "drop"), Hz=20, DTs=(0, 50000),
             MsgShapes=("a", "W1", "nlA"), TextShapes=("T", "TW1")),
         fam("single_pty", W=6, H=5, D=4 if q else 5, BarOps=("tick", "set_message", "println", "finish", "finish_and_clear", "drop"),
@@ -199,6 +201,11 @@ def c03(pid, tier, seed):
         # log lines taller than the terminal, through a bar and through the MultiProgress
         fam("log_tall", conf="multi", W=3, H=4, Multi=True, MaxBars=2, Pre=1, D=4 if q else 5, BarOps=("tick", "println", "finish", "drop"), MpOps=("mp_println",), TextShapes=("T", "T5W"),
             Fins=("AndLeave",), Tpls=("M",), M0="id", shards=12),
+        # the same text printed again and again (through the bar, with an unchanged frame in between), suspend through a member that
+        # was finished and cleared
+        fam("log_repeats", conf="single", W=4, H=8, D=4 if q else 5, BarOps=("println", "tick", "suspend", "finish_and_clear"), TextShapes=("same", "T"), MsgShapes=("a",), Fins=("AndLeave",)),
+        fam("log_suspend_members", conf="multi", W=4, H=12, Multi=True, MaxBars=3, Pre=3, D=6 if q else 7, BarOps=("tick", "suspend", "finish_and_clear", "println"), MpOps=(),
+            TextShapes=("same", "T"), Fins=("AndLeave",), Tpls=("M",), M0="id", shards=12),
         fam("log_multi_limited", conf="multi", W=4, H=12, Multi=True, MaxBars=3, D=14, BarOps=("burst", "tick", "finish", "drop", "println", "set_message"),
             MpOps=("mp_println", "mp_suspend"), MsgShapes=("a", "W1"), TextShapes=("T", "TW1", "TnlT"), Fins=("AndLeave", "AndClear"),
             Hz=1, DTs=(0, 1000000), M0="id", mode=("sim", 400 if q else 4000, 16), shards=12),
